@@ -10,18 +10,21 @@
 (***************************************************************************)
 EXTENDS Request, FiniteSets
 
-VARIABLES reqs,      \* round: id -> [sock, cls, v, len, answers]
+VARIABLES reqs,      \* round: id -> [sock, cls, v, len, answers, routable]
           roots,     \* round: set of <<root_id, v, indx, pathlen>> seen (responses sharing a signed root)
-          totals     \* section: [arrivals, replies, bytes, greased, failing]
+          totals     \* section: [arrivals, replies, bytes, greased, failing, unroutable]
 avars == <<reqs, roots, totals>>
 
 NoReqs == <<>>      \* ids are 1..Len(reqs): a sequence of records
 
 RoundBegin == reqs' = NoReqs /\ roots' = {} /\ UNCHANGED totals
 
-Receive(sock, f) ==
-    /\ reqs' = Append(reqs, [sock |-> sock, cls |-> Classify(f), v |-> ProtoOf(f), len |-> f.len, answers |-> 0])
-    /\ totals' = [totals EXCEPT !.arrivals = @ + 1]
+\* `routable` = FALSE: the datagram's source address is one the operating system refuses to send to
+\* (source port 0): the server's send fails, nothing can be observed; the statistics must say so
+Receive(sock, f, routable) ==
+    /\ reqs' = Append(reqs, [sock |-> sock, cls |-> Classify(f), v |-> ProtoOf(f), len |-> f.len, answers |-> 0, routable |-> routable])
+    /\ totals' = [totals EXCEPT !.arrivals = @ + 1,
+                                !.unroutable = @ + (IF ~routable /\ Classify(f) = "must" THEN 1 ELSE 0)]
     /\ UNCHANGED roots
 
 \* what every NON-fault-injected response must satisfy, given the request r it answers
@@ -111,7 +114,7 @@ Respond(rp) ==
 
 \* at quiescence every request that must be answered has exactly one response
 RoundEndReasons ==
-    (IF \E r \in 1..Len(reqs) : reqs[r].cls = "must" /\ reqs[r].answers = 0 THEN {"no_reply_to_valid"} ELSE {})
+    (IF \E r \in 1..Len(reqs) : reqs[r].cls = "must" /\ reqs[r].routable /\ reqs[r].answers = 0 THEN {"no_reply_to_valid"} ELSE {})
     \cup (IF \E r \in 1..Len(reqs) : reqs[r].answers > 1 THEN {"duplicate_reply"} ELSE {})
 
 
